@@ -36,13 +36,26 @@ def placeFrom (slots : Array (Option Entry)) (e : Entry) (fuel pos coll : Nat) :
     | some (some _) => placeFrom slots e fuel ((pos + 1) % slots.size) (coll + 1)
     | none => none
 
+/-- the probes `grow` makes for an EMPTY old slot: the code relocates those as well (`for _, e := range t.entries` does not
+test `e.occupied`): the zero entry has hash 0, so the walk starts at slot 0 and goes to the first free slot, which is
+overwritten with the zero entry (no change). Only `RelocationCollisions` moves: one per occupied slot passed. -/
+def skipFrom (slots : Array (Option Entry)) (fuel pos coll : Nat) : Option Nat :=
+  match fuel with
+  | 0 => none
+  | fuel + 1 =>
+    match slots[pos]? with
+    | some none => some coll
+    | some (some _) => skipFrom slots fuel ((pos + 1) % slots.size) (coll + 1)
+    | none => none
+
 def grow (t : Tbl) : Option Tbl :=
   let newLen := cfg.growth * t.slots.size
   let init : Option (Array (Option Entry) × Nat) := some (Array.replicate newLen none, t.relocCollisions)
   let r := t.slots.foldl (fun acc s =>
     match acc, s with
     | some (ns, c), some e => placeFrom ns e (newLen + 1) (e.hash % newLen) c
-    | acc, _ => acc) init
+    | some (ns, c), none => (skipFrom ns (newLen + 1) (0 % newLen) c).map fun c' => (ns, c')
+    | none, _ => none) init
   r.map fun (ns, c) => { t with slots := ns, relocCollisions := c, relocCount := t.relocCount + 1,
                                  lfDen := t.lfDen * cfg.growth }
 
